@@ -1,29 +1,16 @@
 package internal
 
 // C15 — service discovery view converges to the registry's live key set.
-// In-package part of the harness injected by /verif (overlay):
-//   * C15Fake: a scripted EtcdClient (model store with revisions, prefix Get,
-//     Watch honouring WithRev by replaying logged events, breakable streams);
-//   * export-style helpers to inject the fake into connManager, to trigger the
-//     reconnect callback (cluster.reload) and to stop a cluster's watchers;
-//   * the stateWatcher rule (reload callback fires exactly on a transition to
-//     Ready that follows a TransientFailure/Shutdown).
-// The main rule lives in c15_test.go (package internal_test) and drives real
-// discov.Subscriber values.
+// In-package part of the harness injected by /verif (overlay): the stateWatcher
+// rule (reload callback fires exactly on a transition to Ready that follows a
+// TransientFailure/Shutdown). The fake EtcdClient and the injection helpers are
+// in c15_fake.go (tag verif); the main rule lives in c15_test.go (package
+// internal_test) and drives real discov.Subscriber values.
 
 import (
 	"context"
-	"errors"
-	"fmt"
-	"io"
-	"sort"
-	"sync"
 	"testing"
 
-	pb "go.etcd.io/etcd/api/v3/etcdserverpb"
-	"go.etcd.io/etcd/api/v3/mvccpb"
-	clientv3 "go.etcd.io/etcd/client/v3"
-	"google.golang.org/grpc"
 	"google.golang.org/grpc/connectivity"
 	"pgregory.net/rapid"
 	"verif.local/kit"
@@ -32,327 +19,6 @@ import (
 )
 
 func init() { logx.Disable() }
-
-// ---------------------------------------------------------------- fake etcd
-
-// C15Event is one logged store event.
-type C15Event struct {
-	Rev  int64
-	Del  bool
-	Key  string
-	Val  string // value put, or value the key held when deleted
-	Lost bool   // never shown to any watcher (only visible in a later Get)
-}
-
-type c15Stream struct {
-	prefix string // "" = exact key match on key
-	key    string
-	end    string
-	ch     chan clientv3.WatchResponse
-	open   bool
-	// replay not yet handed to the watcher: the harness pumps it response by
-	// response so that the interleaving of several replaying watchers is part
-	// of the case (deterministic) instead of left to the scheduler
-	pending [][]C15Event
-}
-
-func (s *c15Stream) matches(k string) bool {
-	if s.end == "" {
-		return k == s.key
-	}
-	return k >= s.key && k < s.end
-}
-
-// C15Fake implements EtcdClient on top of an in-memory store.
-type C15Fake struct {
-	mu       sync.Mutex
-	rev      int64
-	kv       map[string]string
-	log      []C15Event
-	lastLost int64
-	streams  []*c15Stream
-	getErrs  int
-	afterKey string
-	afterGet func()
-	batch    bool // replay as one multi-event response
-	Gets     int
-	Watches  int
-	Overflow bool
-	BadWatch string
-}
-
-// NewC15Fake creates a store at revision rev0 (0 = never written).
-func NewC15Fake(rev0 int64, batchReplay bool) *C15Fake {
-	return &C15Fake{rev: rev0, kv: map[string]string{}, batch: batchReplay}
-}
-
-func (f *C15Fake) ActiveConnection() *grpc.ClientConn { return nil }
-func (f *C15Fake) Close() error                       { return nil }
-func (f *C15Fake) Ctx() context.Context               { return context.Background() }
-func (f *C15Fake) Grant(ctx context.Context, ttl int64) (*clientv3.LeaseGrantResponse, error) {
-	return nil, errors.New("c15 fake: not implemented")
-}
-func (f *C15Fake) KeepAlive(ctx context.Context, id clientv3.LeaseID) (<-chan *clientv3.LeaseKeepAliveResponse, error) {
-	return nil, errors.New("c15 fake: not implemented")
-}
-func (f *C15Fake) Put(ctx context.Context, key, val string, opts ...clientv3.OpOption) (*clientv3.PutResponse, error) {
-	return nil, errors.New("c15 fake: not implemented")
-}
-func (f *C15Fake) Revoke(ctx context.Context, id clientv3.LeaseID) (*clientv3.LeaseRevokeResponse, error) {
-	return nil, errors.New("c15 fake: not implemented")
-}
-
-// FailGets makes the next n Get calls fail.
-func (f *C15Fake) FailGets(n int) {
-	f.mu.Lock()
-	f.getErrs = n
-	f.mu.Unlock()
-}
-
-// AfterNextGet registers a hook run once, right after the next successful Get
-// of exactly this key has taken its snapshot (events between the snapshot and
-// the watch).
-func (f *C15Fake) AfterNextGet(key string, fn func()) {
-	f.mu.Lock()
-	f.afterKey, f.afterGet = key, fn
-	f.mu.Unlock()
-}
-
-func (f *C15Fake) Get(ctx context.Context, key string, opts ...clientv3.OpOption) (*clientv3.GetResponse, error) {
-	op := clientv3.OpGet(key, opts...)
-	f.mu.Lock()
-	f.Gets++
-	if err := ctx.Err(); err != nil {
-		f.mu.Unlock()
-		return nil, err
-	}
-	if f.getErrs > 0 {
-		f.getErrs--
-		f.mu.Unlock()
-		return nil, errors.New("c15 fake: scripted Get failure")
-	}
-	lo, hi := string(op.KeyBytes()), string(op.RangeBytes())
-	var keys []string
-	for k := range f.kv {
-		if (hi == "" && k == lo) || (hi != "" && k >= lo && k < hi) {
-			keys = append(keys, k)
-		}
-	}
-	sort.Strings(keys)
-	resp := &clientv3.GetResponse{Header: &pb.ResponseHeader{Revision: f.rev}}
-	for _, k := range keys {
-		resp.Kvs = append(resp.Kvs, &mvccpb.KeyValue{Key: []byte(k), Value: []byte(f.kv[k])})
-	}
-	resp.Count = int64(len(keys))
-	var hook func()
-	if f.afterGet != nil && f.afterKey == key {
-		hook, f.afterGet = f.afterGet, nil
-	}
-	f.mu.Unlock()
-	if hook != nil {
-		hook()
-	}
-	return resp, nil
-}
-
-func c15Resp(rev int64, evs []C15Event) clientv3.WatchResponse {
-	r := clientv3.WatchResponse{Header: pb.ResponseHeader{Revision: rev}}
-	for _, e := range evs {
-		ev := &clientv3.Event{Type: clientv3.EventTypePut, Kv: &mvccpb.KeyValue{Key: []byte(e.Key), Value: []byte(e.Val), ModRevision: e.Rev}}
-		if e.Del {
-			// like etcd: a delete event carries the key only
-			ev.Type = clientv3.EventTypeDelete
-			ev.Kv.Value = nil
-		}
-		r.Events = append(r.Events, ev)
-	}
-	return r
-}
-
-func (f *C15Fake) send(s *c15Stream, r clientv3.WatchResponse) {
-	select {
-	case s.ch <- r:
-	default:
-		f.Overflow = true
-	}
-}
-
-// Watch registers a stream. With WithRev(r) every logged, non-lost event with
-// revision >= max(r, lastLost+1) is replayed first (a contiguous suffix of the
-// history: replays never have holes).
-func (f *C15Fake) Watch(ctx context.Context, key string, opts ...clientv3.OpOption) clientv3.WatchChan {
-	op := clientv3.OpGet(key, opts...)
-	f.mu.Lock()
-	defer f.mu.Unlock()
-	f.Watches++
-	s := &c15Stream{key: string(op.KeyBytes()), end: string(op.RangeBytes()), ch: make(chan clientv3.WatchResponse, 256), open: true}
-	f.streams = append(f.streams, s)
-	if r := op.Rev(); r != 0 {
-		if r > f.rev+1 {
-			f.BadWatch = fmt.Sprintf("Watch from future revision %d (store at %d)", r, f.rev)
-		}
-		from := r
-		if f.lastLost+1 > from {
-			from = f.lastLost + 1
-		}
-		var evs []C15Event
-		for _, e := range f.log {
-			if e.Rev >= from && !e.Lost && s.matches(e.Key) {
-				evs = append(evs, e)
-			}
-		}
-		if f.batch && len(evs) > 0 {
-			s.pending = append(s.pending, evs)
-		} else {
-			for _, e := range evs {
-				s.pending = append(s.pending, []C15Event{e})
-			}
-		}
-	}
-	return s.ch
-}
-
-// Pending is the number of streams with an unpumped replay.
-func (f *C15Fake) Pending() int {
-	f.mu.Lock()
-	defer f.mu.Unlock()
-	n := 0
-	for _, s := range f.streams {
-		if s.open && len(s.pending) > 0 {
-			n++
-		}
-	}
-	return n
-}
-
-// PumpStep hands the next replay response of the (pick mod n)-th stream that
-// has one to its watcher and returns the events it carries.
-func (f *C15Fake) PumpStep(pick int) []C15Event {
-	f.mu.Lock()
-	defer f.mu.Unlock()
-	var cand []*c15Stream
-	for _, s := range f.streams {
-		if s.open && len(s.pending) > 0 {
-			cand = append(cand, s)
-		}
-	}
-	if len(cand) == 0 {
-		return nil
-	}
-	if pick < 0 {
-		pick = -pick
-	}
-	s := cand[pick%len(cand)]
-	evs := s.pending[0]
-	s.pending = s.pending[1:]
-	f.send(s, c15Resp(evs[len(evs)-1].Rev, evs))
-	return evs
-}
-
-// Rev is the store revision.
-func (f *C15Fake) Rev() int64 {
-	f.mu.Lock()
-	defer f.mu.Unlock()
-	return f.rev
-}
-
-// Apply performs one store mutation; delivered events go to every open stream
-// whose range matches, lost ones to none.
-func (f *C15Fake) Apply(del bool, key, val string, lost bool) {
-	f.mu.Lock()
-	defer f.mu.Unlock()
-	f.rev++
-	e := C15Event{Rev: f.rev, Del: del, Key: key, Val: val, Lost: lost}
-	if del {
-		e.Val = f.kv[key]
-		delete(f.kv, key)
-	} else {
-		f.kv[key] = val
-	}
-	f.log = append(f.log, e)
-	if lost {
-		f.lastLost = f.rev
-		return
-	}
-	for _, s := range f.streams {
-		if s.open && s.matches(key) {
-			f.send(s, c15Resp(e.Rev, []C15Event{e}))
-		}
-	}
-}
-
-// Break ends every open stream: "close" closes the channel, "cancel" sends a
-// Canceled response, "error" sends a response whose Err() is non-nil
-// (compacted). The code under test is expected to open a new watch.
-func (f *C15Fake) Break(mode string) {
-	f.mu.Lock()
-	defer f.mu.Unlock()
-	for _, s := range f.streams {
-		if !s.open {
-			continue
-		}
-		s.open = false
-		switch mode {
-		case "close":
-			close(s.ch)
-		case "cancel":
-			f.send(s, clientv3.WatchResponse{Canceled: true})
-		case "error":
-			f.send(s, clientv3.WatchResponse{CompactRevision: 1})
-		}
-	}
-	f.streams = nil
-}
-
-// Release drops everything the fake holds (called at the end of a case).
-func (f *C15Fake) Release() {
-	f.mu.Lock()
-	f.streams, f.log, f.kv = nil, nil, map[string]string{}
-	f.mu.Unlock()
-}
-
-// ------------------------------------------------------------ export helpers
-
-// C15Inject makes cli the pooled connection for endpoints.
-func C15Inject(endpoints []string, cli EtcdClient) {
-	key := getClusterKey(append([]string(nil), endpoints...))
-	_, _ = connManager.Get(key, func() (io.Closer, error) { return cli, nil })
-}
-
-func c15Cluster(endpoints []string) *cluster {
-	key := getClusterKey(append([]string(nil), endpoints...))
-	registry.lock.Lock()
-	defer registry.lock.Unlock()
-	return registry.clusters[key]
-}
-
-// C15Reload does what the connection-state listener installed by
-// cluster.watchConnState does on a reconnect: go c.reload(cli).
-func C15Reload(endpoints []string, cli EtcdClient) bool {
-	c := c15Cluster(endpoints)
-	if c == nil {
-		return false
-	}
-	go c.reload(cli)
-	return true
-}
-
-// C15Shutdown stops the watchers of the cluster, waits for them and forgets
-// the cluster. Must be called at quiescence.
-func C15Shutdown(endpoints []string) {
-	c := c15Cluster(endpoints)
-	if c == nil {
-		return
-	}
-	c.lock.Lock()
-	close(c.done)
-	wg := c.watchGroup
-	c.lock.Unlock()
-	wg.Wait()
-	registry.lock.Lock()
-	delete(registry.clusters, c.key)
-	registry.lock.Unlock()
-}
 
 // --------------------------------------------------------- stateWatcher rule
 
